@@ -1,7 +1,7 @@
 """C06 — call request ids are fresh and results reach the call that requested them (DESIGN §4/C06)."""
 from rules import lib
 from rules.lib import Prov, show, walk
-from props import common
+from props import common, mergetab, sides
 
 LEVEL = ("Structural premises from which freshness and routing follow by a short argument: the id counter has two "
          "writers (constructor seeded from the PREVIOUS data's last id; next_call_request_id = field+1 returning the "
@@ -12,12 +12,14 @@ LEVEL = ("Structural premises from which freshness and routing follow by a short
 
 def check(ctx):
     F = ctx.facts("prod")
+    sides.check_sides(ctx, F)
     ctx.clause("R-WRITERS last_call_request_id written only by ExecutionCtx::new and next_call_request_id")
     ctx.clause("R-FLOW seed = prev_ingredients.last_call_request_id; prepare builds prev_ingredients from prev_data")
     ctx.clause("R-OP next_call_request_id: field := field + 1, returns the updated field")
     ctx.clause("R-FLOW request key and persisted call_id are the same value; envelope stores the counter")
     ctx.clause("R-FLOW/R-GUARD result lookup keyed by the met state's own call_id under the own-sender guard")
     ctx.clause("R-TABLE from_success_result: leftover call results -> UnprocessedCallResult, data still produced")
+    ctx.clause("R-TABLE/R-FLOW persistence between runs: merge keeps the own pending mark (RequestSentBy/RequestSentBy -> previous); every failed-run exit returns the untouched previous data (which holds the counter)")
 
     reach, _ = F.reachable_fns([F.fn("runner::execute_air")])
     muts = common.field_mutators(F, "ExecutionCtx", "last_call_request_id", None)
@@ -108,6 +110,11 @@ def check(ctx):
     aggs = [s for s in walk(fp.local(0)) if s[0] == "agg" and s[1].endswith("::InterpreterData")]
     ctx.require(len(aggs) == 1 and aggs[0][3]["last_call_request_id"][0] == "param" and aggs[0][3]["last_call_request_id"][1] == "last_call_request_id",
                 "R-FLOW", "counter:envelope-field", "InterpreterData.last_call_request_id := argument", "from_execution_result mis-stores last_call_request_id")
+
+    # the counter and the pending marks live in the peer's own data between runs: they survive (a) a merge with incoming
+    # data and (b) a run that fails before execution (the host stores whatever data the outcome carries)
+    mergetab.call_merge_keeps_pending_mark(ctx, F)
+    common.farewell_sites(ctx, F)
 
     # routing
     h = F.fn("prev_result_handler::handle_prev_state")
